@@ -65,7 +65,7 @@ import discretisedfield as df  # noqa: E402
 from workloads import _io_gen as ig  # noqa: E402
 from workloads import gen  # noqa: E402
 
-TOLS = [1e-12, 1e-12, 1e-10, 1e-9, 1e-6]
+TOLS = [1e-12, 1e-12, 1e-10, 1e-9, 1e-6, 1e-12, 1e-10, 0, 0.0]  # 0: exact comparisons
 SAMPLE = os.path.join(os.path.dirname(df.__file__), "tests", "test_sample", "hdf5-file.hdf5")
 
 
@@ -369,7 +369,12 @@ def corner_typing(ctx, tmp):
     nd = int(rng.integers(1, 5))
     region_int = bool(rng.random() < 0.5)
     sub_int = bool(rng.random() < 0.5)
-    typing = f"{'int' if region_int else 'float'}_region_{'int' if sub_int else 'float'}_sub"
+    # one set of subregions may mix both: the first one with whole-number (integer-typed)
+    # corners, later ones with fractional (float) corners
+    mixed = bool(rng.random() < 0.3)
+    if mixed:
+        sub_int = False
+    typing = f"{'int' if region_int else 'float'}_region_{'mixed' if mixed else 'int' if sub_int else 'float'}_sub"
     # integer lattice coordinates; cell is 1 (integer vertices) or 0.5 (half-integer)
     m = rng.integers(1, 5, nd)  # region edge = m (integers)
     half = (not sub_int) or rng.random() < 0.3
@@ -383,10 +388,11 @@ def corner_typing(ctx, tmp):
         c1, c2 = [float(x) for x in p1], [float(x) for x in p2]
     dims = gen.rand_dims(rng, nd)
     region = df.Region(p1=c1, p2=c2, dims=dims)
-    k = int(rng.integers(1, 4))
+    k = int(rng.integers(2, 4)) if mixed else int(rng.integers(1, 4))
     subs, want = {}, {}
     for j in range(k):
-        for _ in range(20):
+        sub_int = (j == 0) if mixed else sub_int
+        for _ in range(40):
             lo, hi = gen.rand_box(rng, n)
             a = p1 + lo * cellv
             b = p1 + hi * cellv
